@@ -9,6 +9,7 @@
 #include <cstdio>
 #include <cstdlib>
 #include <cstring>
+#include <malloc.h>
 #include <ctime>
 #include <map>
 #include <set>
@@ -1194,6 +1195,9 @@ namespace cdsmc {
 
 int main_run( int argc, char** argv, std::vector<Scenario>& all, Options const& opt )
 {
+    // every heap block starts with the same bytes, whatever lived at that address before (see atomic.h, store())
+    mallopt( M_PERTURB, 0xff );     // allocation fill = ~0xff = 0x00, release fill = 0xff
+
     // address-space randomisation off: heap/stack addresses are then the same in every worker and every run
     if ( !getenv( "CDSMC_NO_REEXEC" )) {
         int pers = personality( 0xffffffff );
